@@ -361,6 +361,17 @@ def run(ctx) -> None:
                       "addresses a different dimension than in NumPy (base axes can be hit, ensemble axes missed)",
                       key_detail="axisnorm")
 
+    # expand_dims normalises a negative axis against the *old* rank (np.expand_dims counts positions in the result):
+    # confirmed on the tree (expand_dims((-2,)) on (2,3,ny,nx) gives (2,3,1,ny,nx), NumPy would address a base axis).
+    # Reported as information: following NumPy would turn calls that work today into errors, which is a change of
+    # behaviour rather than a minimal repair.
+    ed = repo.method(ARR, "ArrayObject", "expand_dims")
+    for c in walk_no_nested(ed.node):
+        if isinstance(c, ast.Call) and call_name(c) == "normalize_axes" and len(c.args) >= 2:
+            ctx.info("R-AXISNORM", f"{ed.qualname}:axis normalisation", ed.loc(c),
+                     f"new-axis positions are normalised against `{norm_text(c.args[1])}` (the rank before expansion); "
+                     "negative positions therefore differ from np.expand_dims — not decided as a violation")
+
     # ---------------- R-ITEMMETA
     from .c32 import receiver_writes
 
